@@ -20,6 +20,12 @@ type ctxState struct {
 	err      value
 	children []*value
 	parent   *value
+	after    []*afterFn // context.AfterFunc registrations
+}
+
+type afterFn struct {
+	f              value
+	fired, stopped bool
 }
 
 func (e *Engine) ctxStateOf(p *value) *ctxState {
@@ -69,6 +75,13 @@ func (e *Engine) cancelCtx(p *value, err value) {
 	if !s.done.closed {
 		e.hbRelease(s.done)
 		s.done.closed = true
+	}
+	// context.AfterFunc: each registered function runs in its own goroutine
+	for _, a := range s.after {
+		if !a.fired && !a.stopped {
+			a.fired = true
+			e.spawn(a.f, nil)
+		}
 	}
 	kids := s.children
 	s.children = nil
@@ -171,6 +184,31 @@ func (e *Engine) setupCtx() {
 			return e.errNil()
 		}
 		return s.err
+	}
+	x["context.AfterFunc"] = func(e *Engine, fr *frame, a []value) value {
+		parent := a[0].(iface)
+		if parent.t == nil {
+			e.rtPanic("cannot create context from nil parent")
+		}
+		reg := &afterFn{f: a[1]}
+		if anc := e.nearestCancel(parent); anc != nil {
+			as := e.ctxStateOf(anc)
+			if as.err != nil {
+				reg.fired = true
+				e.spawn(reg.f, nil)
+			} else {
+				as.after = append(as.after, reg)
+			}
+		}
+		// a context that can never be cancelled never runs f
+		return &nativeFn{name: "context.AfterFunc.stop", f: func(e *Engine, args []value) value {
+			e.yield()
+			if reg.fired || reg.stopped {
+				return BoolT(false)
+			}
+			reg.stopped = true
+			return BoolT(true)
+		}}
 	}
 	x["context.WithValue"] = func(e *Engine, fr *frame, a []value) value {
 		vt := e.namedType("context", "valueCtx")
